@@ -28,6 +28,8 @@ def bounds(tier):
         "alphabet": spaces.SIGMA_DOC,
         "max_len": 5 if tier == "quick" else 6,
         "core_alphabet_max_len": None if tier == "quick" else 7,
+        "extended_alphabet": spaces.SIGMA_DOC_EXT[len(spaces.SIGMA_DOC):],
+        "extended_alphabet_max_len": 3 if tier == "quick" else 4,
         "deviation_bound": 1 if tier == "quick" else 2,
         "base_docs": len(spaces.BASE_DOCS),
         "layout_family": True,
@@ -38,7 +40,7 @@ def shards(tier):
     out = [("seq", s) for s in seq_shards(spaces.SIGMA_DOC, 5 if tier == "quick" else 6)]
     if tier == "thorough":
         out += [("core", s) for s in seq_shards(spaces.SIGMA_DOC_CORE, 7, min_len=7)]
-        out += [("ext", s) for s in seq_shards(spaces.SIGMA_DOC_EXT, 4)]
+    out += [("ext", s) for s in seq_shards(spaces.SIGMA_DOC_EXT, 3 if tier == "quick" else 4)]
     out += spaces.deviation_shards(len(spaces.BASE_DOCS), 1 if tier == "quick" else 2)
     out += [("layout", i) for i in range(len(LAYOUT_WS))]
     return out
